@@ -181,3 +181,33 @@ func Must(err error) {
 		os.Exit(2)
 	}
 }
+
+// In-flight marker: before a harness hands a case to the code under test it records the case here, so
+// that when the process dies (fatal error: out of memory, stack overflow, an unrecovered panic in the
+// harness itself) the check can name the input that was running.
+var inflight *os.File
+
+func InflightOpen(dir string) {
+	os.MkdirAll(dir, 0o755)
+	f, err := os.Create(dir + "/inflight.txt")
+	if err == nil {
+		inflight = f
+	}
+}
+
+func Inflight(s string) {
+	if inflight == nil {
+		return
+	}
+	inflight.Truncate(0)
+	inflight.WriteAt([]byte(s), 0)
+}
+
+// InflightDone removes the marker: the harness finished normally.
+func InflightDone(dir string) {
+	if inflight != nil {
+		inflight.Close()
+		inflight = nil
+	}
+	os.Remove(dir + "/inflight.txt")
+}
